@@ -1,44 +1,42 @@
 #!/usr/bin/env python3
-"""Round 3: builds /verif/seeded/<id>/ (patch.diff, demo files, notes.md, meta.json) from the confirmed
-second-round changes (made by fresh sub-agents against the FIXED tree) and records which registered
-check detects each (runs tools/try_mutant.sh)."""
-import json, os, shutil, subprocess, glob
+"""Round 3: builds /verif/seeded/<id>/ from the confirmed third-round changes (fresh sub-agents, three
+changes each, against the fixed tree) and records (a) whether the check as it stood BEFORE the round-3
+strengthening caught it (/tmp/confirm3/before.log) and (b) what the current check says (tools/try_mutant.sh)."""
+import json, os, shutil, subprocess, glob, re
 OUT='/verif/seeded'
 props={json.loads(l)['id']:json.loads(l) for l in open('/verif/properties.jsonl')}
-missed_first={
- 'C20-r2m1':'missed at first: the fail cells read only one kind before the failure; prior reads of several kinds added (ioworker fail op)',
- 'C13-r2m1':'missed at first: struct names/orders outside the struct family added',
- 'C10-r2m1':'missed at first: same-line appends with several separators added',
- 'C15-r2m1':'missed at first: more layouts and a registry robust against missing constants',
- 'C04-r2m1':'missed at first: field-less v1 variant added',
- 'C09-r2m1':'missed at first: inputs with deprecated fields present added',
- 'C03-r2m2':'missed at first: deprecated-present inputs / extremes family',
- 'C19-r2m1':'missed at first: symlinked targets and long-line inputs added',
- 'C14-r2m1':'missed at first: trees from the extremes family and random schemas added',
- 'C12-r2m2':'missed at first: separate-mode import sets added to C12 (lib + app packages under every option row)',
- 'C06-r2m1':'missed at first: separate-mode import sets added to the codec corpus',
- 'C17-r2m1':'missed at first: comment-placement family (block/line comments at token boundaries) added to C16/C17',
-}
+before={}
+for l in open('/tmp/confirm3/before.log'):
+    m=re.match(r'(C\d\d-r3m\d) (\w+)',l)
+    if m: before[m.group(1)]=(m.group(2)=='DETECTED', l.strip()[len(m.group(1))+1:][:300])
+extra={'C06-r3m4':['C07']}
+skip={'C10-r3m3':'neutralised by fix 2958cc2 (the token reader now remembers reader failures): its demonstration passes with the change applied'}
 for f in sorted(glob.glob('/tmp/confirm3/C*.json')):
     d=json.load(open(f)); mid=d['id']
-    if not d.get('confirmed'): continue
+    if mid in skip or not d.get('confirmed'): continue
     p,m=mid.split('-r3')
     src='/tmp/wt3/out/%s/%s'%(p,m)
     dst=os.path.join(OUT,mid); os.makedirs(dst,exist_ok=True)
     for fn in os.listdir(src):
-        if fn.endswith('.log'): continue
+        if fn.endswith('.log') or os.path.isdir(os.path.join(src,fn)): continue
         shutil.copy(os.path.join(src,fn),os.path.join(dst,fn))
-    r=subprocess.run(['/verif/tools/try_mutant.sh',os.path.join(dst,'patch.diff'),p],capture_output=True,text=True)
-    line=(r.stdout.strip().splitlines() or ['?'])[-1]
-    det={p:{'detected':line.startswith('DETECTED'),'summary':line[:700]}}
-    print(mid,line[:140],flush=True)
+    ported='/verif/seeded/ported/%s.diff'%mid
+    if os.path.exists(ported):
+        shutil.copy(os.path.join(src,'patch.diff'),os.path.join(dst,'patch.as-written-by-the-sub-agent.diff'))
+        shutil.copy(ported,os.path.join(dst,'patch.diff'))
+    det={}
+    for chk in [p]+extra.get(mid,[]):
+        r=subprocess.run(['/verif/tools/try_mutant.sh',os.path.join(dst,'patch.diff'),chk],capture_output=True,text=True)
+        line=(r.stdout.strip().splitlines() or ['?'])[-1]
+        det[chk]={'detected':line.startswith('DETECTED'),'summary':line[:700]}
+        print(mid,chk,line[:140],flush=True)
     meta={'id':mid,'property':p,'property_title':props[p]['title'],
-      'origin':'fresh sub-agent given only the property text and a scratch worktree of the fixed tree (round 3)',
-      'patch_applies_to':'/repo HEAD %s'%d['repo_head'],
+      'origin':'fresh sub-agent given only the property text and a scratch worktree of the fixed tree (round 3, three changes per agent)',
+      'patch_applies_to':'/repo HEAD at assembly (confirmed at %s)'%d['repo_head'],
       'needs_to_manifest':'see notes.md (written by the sub-agent)',
       'confirmed_by_me':{'how':'tools/confirm_mutant.py in a scratch worktree of /repo HEAD: demo passes on the clean tree; with the patch: go build ok, pinned suite (go test -vet=off -count=1 ./...) passes, demo fails',
          'demo_cmd':d.get('demo_cmd'),'clean_demo_rc':d['clean_demo_rc'],'patched_build_rc':d['patched_build_rc'],'patched_suite_rc':d['patched_suite_rc'],'patched_demo_rc':d['patched_demo_rc'],
          'patched_demo_tail':d.get('patched_demo_tail','')[-400:]},
+      'caught_before_round3_strengthening':{'detected':before.get(mid,(None,''))[0],'summary':before.get(mid,(None,''))[1]},
       'checks_run_against_it':det}
-    if mid in missed_first: meta['history']=missed_first[mid]
     json.dump(meta,open(os.path.join(dst,'meta.json'),'w'),indent=1)
